@@ -19,11 +19,16 @@ def isWrapper (sd : StructD) : Bool :=
   | [f] => f.kind == .text && f.wrap == .one && isPrim f.leaf
   | _ => false
 
-/-- members of a complex-type struct: elements (primitive or struct), primitive attributes without prefix -/
-def fieldCore (f : FieldD) : Bool :=
+/-- members of a complex-type struct: elements (primitive or struct); attributes without prefix whose type is a
+    primitive or a simple-type wrapper -/
+def wrapperLeaf (P : Prog) : Leaf → Bool
+  | .prim _ => false
+  | .struct n => (match P.find n with | some w => isWrapper w | none => false)
+
+def fieldCore (P : Prog) (f : FieldD) : Bool :=
   match f.kind with
   | .elem => true
-  | .attr => isPrim f.leaf && f.pfx.isNone
+  | .attr => (isPrim f.leaf || wrapperLeaf P f.leaf) && f.pfx.isNone
   | .text => false
   | .flatten => false
 
@@ -45,11 +50,11 @@ def ownersOK (sd : StructD) : Bool :=
     | some f => f.kind != .elem || firstOwner sd (elemKey sd f) sd.fields 0 == some i
     | none => true
 
-def isComplex (sd : StructD) : Bool :=
-  sd.fields.all fieldCore && ownersOK sd && nodupB (attrNames sd) &&
+def isComplex (P : Prog) (sd : StructD) : Bool :=
+  sd.fields.all (fieldCore P) && ownersOK sd && nodupB (attrNames sd) &&
   sd.fields.all (fun f => f.kind != .elem || bound sd.nss f.pfx)
 
-def structCore (sd : StructD) : Bool := isWrapper sd || isComplex sd
+def structCore (P : Prog) (sd : StructD) : Bool := isWrapper sd || isComplex P sd
 
 /-- all `namespaces` maps of the program agree: a prefix denotes one URI everywhere (C10) -/
 def consistent (P : Prog) : Bool :=
@@ -57,7 +62,7 @@ def consistent (P : Prog) : Bool :=
     | some u => u == pu.2
     | none => true
 
-def core (P : Prog) : Bool := P.all structCore && consistent P
+def core (P : Prog) : Bool := P.all (structCore P) && consistent P
 
 /-! ### well-typed canonical values -/
 
@@ -71,6 +76,13 @@ def wrapOK : Wrap → Vals → Bool
   | .one, .cons _ .nil => true
   | .one, .nil => false
   | .one, .cons _ (.cons _ _) => false
+
+/-- the text an item of an attribute member is written as: a primitive's text, or the character data of a
+    simple-type wrapper -/
+def itemText : Val → String
+  | .prim s => s
+  | .struct _ (.cons (.cons (.prim s) .nil) .nil) => s
+  | .struct _ _ => ""
 
 mutual
 /-- the value has the shape of its type, every primitive text is non-empty and in the form `Display` prints -/
@@ -89,7 +101,7 @@ def okFields (P : Prog) : List FieldD → FVals → Bool
 def okItems (P : Prog) (leaf : Leaf) (isAttr : Bool) : Vals → Bool
   | .nil => true
   | .cons v r =>
-    okVal P leaf v && (match v with | .prim s => !isAttr || attrSafe s | .struct _ _ => true) && okItems P leaf isAttr r
+    okVal P leaf v && (!isAttr || attrSafe (itemText v)) && okItems P leaf isAttr r
 end
 
 /-! ### lists -/
@@ -134,8 +146,7 @@ theorem deKids_append (P : Prog) (sd : StructD) : (a b : RXs) →
 
 def primStrs : Vals → List String
   | .nil => []
-  | .cons (.prim s) r => s :: primStrs r
-  | .cons (.struct _ _) r => primStrs r
+  | .cons v r => itemText v :: primStrs r
 
 /-- the (owner position, value) list the event loop collects: the items of every element member, in order -/
 def claimedOf : Nat → List FieldD → FVals → List (Nat × Val)
@@ -252,10 +263,50 @@ theorem primItems_foldr (t : PrimTy) (P : Prog) : (items : Vals) → okItems P (
     have hs' : attrNorm s = s := by
       rcases hs with hs | hs
       · cases hs
-      · simpa [attrSafe] using hs
-    simp only [primStrs, List.map_cons, List.foldr_cons, ih, hs', hn]
+      · simpa [attrSafe, itemText] using hs
+    simp only [primStrs, itemText, List.map_cons, List.foldr_cons, ih, hs', hn]
   | .cons (.struct _ _) r, h => by
     simp [okItems, okVal] at h
+
+/-- the same for an attribute whose type is a simple-type wrapper: every attribute value is parsed as the
+    wrapper's character data -/
+theorem wrapperItems_foldr (P : Prog) (n : String) (w : StructD) (hw : P.find n = some w) (hwr : isWrapper w = true)
+    (fuel : Nat) : (items : Vals) → okItems P (.struct n) true items = true →
+    foldAttrStruct n (fun s => assemble P none [] (txt s) (fuel + 1) w.fields 0 []) ((primStrs items).map attrNorm) = some items
+  | .nil, _ => rfl
+  | .cons (.prim s) r, h => by simp [okItems, okVal] at h
+  | .cons (.struct n' fs) r, h => by
+    simp only [okItems, okVal, Bool.and_eq_true, beq_iff_eq, Bool.not_true, Bool.false_or] at h
+    obtain ⟨⟨⟨hn, hokf⟩, hsafe⟩, hr⟩ := h
+    subst hn
+    rw [hw] at hokf
+    simp only at hokf
+    have ih := wrapperItems_foldr P n w hw hwr fuel r hr
+    unfold isWrapper at hwr
+    match hfl : w.fields, hwr with
+    | [f], hwr =>
+      simp only [Bool.and_eq_true, beq_iff_eq] at hwr
+      obtain ⟨⟨hkind, hwrap⟩, hprim⟩ := hwr
+      cases hl : f.leaf with
+      | struct m => simp [isPrim, hl] at hprim
+      | prim t =>
+        rw [hfl] at hokf
+        match fs, hokf with
+        | .cons items .nil, hokf =>
+          simp only [okFields, Bool.and_eq_true, hl, hwrap] at hokf
+          obtain ⟨⟨hit, hwo⟩, _⟩ := hokf
+          match items, hwo with
+          | .cons (.prim s) .nil, _ =>
+            simp only [okItems, okVal, Bool.and_eq_true, Bool.not_eq_true', beq_iff_eq] at hit
+            obtain ⟨⟨⟨hne, hnorm⟩, _⟩, _⟩ := hit
+            have hs' : attrNorm s = s := by simpa [attrSafe, itemText] using hsafe
+            have : assemble P none [] (txt s) (fuel + 1) [f] 0 [] = some (.cons (.cons (.prim s) .nil) .nil) := by
+              simp [assemble, hkind, hl, deText, txt, hne, hnorm, wrapItems, hwrap, Vals.last?]
+            rw [hfl] at ih
+            unfold foldAttrStruct at ih ⊢
+            simp only [primStrs, itemText, List.map_cons, List.foldr_cons, ih, hs', this]
+          | .cons (.struct _ _) .nil, _ => simp [okItems, okVal] at hit
+        | .cons _ (.cons _ _), hokf => simp [okFields] at hokf
 
 theorem deAttr_ok (P : Prog) (f : FieldD) (t : PrimTy) (hl : f.leaf = .prim t) (R : List (String × String)) (items : Vals)
     (hR : R.filter (fun a => a.1 == f.rename) = (primStrs items).map (fun s => (f.rename, attrNorm s)))
@@ -271,10 +322,10 @@ theorem deAttr_ok (P : Prog) (f : FieldD) (t : PrimTy) (hl : f.leaf = .prim t) (
 
 theorem assemble_ok (P : Prog) (ns : Option String) (text : Option String) (fuel : Nat) :
     (fds : List FieldD) → (fs : FVals) → (j : Nat) → (C : List (Nat × Val)) → (R : List (String × String)) →
-    (∀ f ∈ fds, fieldCore f = true) → nodupB (attrNamesL fds) = true → okFields P fds fs = true →
+    (∀ f ∈ fds, fieldCore P f = true) → nodupB (attrNamesL fds) = true → okFields P fds fs = true →
     (∀ i, j ≤ i → C.filter (fun c => c.1 == i) = (claimedOf j fds fs).filter (fun c => c.1 == i)) →
     (∀ f ∈ fds, f.kind = .attr → R.filter (fun a => a.1 == f.rename) = (attrsOf fds fs).filter (fun a => a.1 == f.rename)) →
-    assemble P ns R text (fuel + 1) fds j C = some fs
+    assemble P ns R text (fuel + 2) fds j C = some fs
   | [], .nil, _, _, _, _, _, _, _, _ => by simp [assemble]
   | [], .cons _ _, _, _, _, _, _, h, _, _ => by simp [okFields] at h
   | _ :: _, .nil, _, _, _, _, _, h, _, _ => by simp [okFields] at h
@@ -312,58 +363,77 @@ theorem assemble_ok (P : Prog) (ns : Option String) (text : Option String) (fuel
       have : ((fun (x : Nat × Val) => x.2) ∘ fun v => (j, v)) = id := by funext v; rfl
       rw [this, List.map_id, Vals.ofList_toList, wrapItems_ok _ _ hwrap, ih]
     | attr =>
-      simp only [fieldCore, hk, Bool.and_eq_true] at hf
-      have hprim := hf.1
+      simp only [fieldCore, hk, Bool.and_eq_true, Bool.or_eq_true] at hf
+      have hnot : f.rename ∉ attrNamesL fds := by
+        unfold attrNamesL at hnd ⊢
+        rw [List.filter_cons] at hnd
+        simp only [hk, beq_self_eq_true, if_true, List.map_cons, nodupB, Bool.and_eq_true, Bool.not_eq_true'] at hnd
+        intro hmem
+        have := hnd.1
+        rw [List.contains_eq_mem] at this
+        simp [hmem] at this
+      have hRf := hR f List.mem_cons_self hk
+      have e1 : (attrsOf (f :: fds) (.cons items rest)).filter (fun a => a.1 == f.rename) =
+          (primStrs items).map (fun s => (f.rename, attrNorm s)) := by
+        simp only [attrsOf, hk, beq_self_eq_true, if_true, List.filter_append, filter_attrsOf_none fds rest f.rename hnot, List.append_nil]
+        rw [List.filter_eq_self]
+        intro a ha
+        simp only [List.mem_map] at ha
+        obtain ⟨s, _, rfl⟩ := ha
+        simp
+      have ih := assemble_ok P ns text fuel fds rest (j + 1) C R (fun g hg => hcore g (List.mem_cons_of_mem _ hg)) hnd' hrest
+        (by
+          intro i hi
+          rw [hC i (by omega)]
+          simp [claimedOf, hk])
+        (by
+          intro g hg hgk
+          rw [hR g (List.mem_cons_of_mem _ hg) hgk]
+          have hne : g.rename ≠ f.rename := by
+            intro e
+            apply hnot
+            unfold attrNamesL
+            simp only [List.mem_map, List.mem_filter]
+            exact ⟨g, ⟨hg, by simp [hgk]⟩, e⟩
+          simp only [attrsOf, hk, beq_self_eq_true, if_true, List.filter_append]
+          have : ((primStrs items).map (fun s => (f.rename, attrNorm s))).filter (fun a => a.1 == g.rename) = [] := by
+            rw [List.filter_eq_nil_iff]
+            intro a ha
+            simp only [List.mem_map] at ha
+            obtain ⟨s, _, rfl⟩ := ha
+            simp only [beq_iff_eq]
+            exact fun e => hne e.symm
+          rw [this, List.nil_append])
+      simp only [hk, beq_self_eq_true] at hitems
       cases hl : f.leaf with
-      | struct n => simp [isPrim, hl] at hprim
       | prim t =>
-        have hnot : f.rename ∉ attrNamesL fds := by
-          unfold attrNamesL at hnd ⊢
-          rw [List.filter_cons] at hnd
-          simp only [hk, beq_self_eq_true, if_true, List.map_cons, nodupB, Bool.and_eq_true, Bool.not_eq_true'] at hnd
-          intro hmem
-          have := hnd.1
-          rw [List.contains_eq_mem] at this
-          simp [hmem] at this
-        have hRf := hR f List.mem_cons_self hk
-        have e1 : (attrsOf (f :: fds) (.cons items rest)).filter (fun a => a.1 == f.rename) =
-            (primStrs items).map (fun s => (f.rename, attrNorm s)) := by
-          simp only [attrsOf, hk, beq_self_eq_true, if_true, List.filter_append, filter_attrsOf_none fds rest f.rename hnot, List.append_nil]
-          rw [List.filter_eq_self]
-          intro a ha
-          simp only [List.mem_map] at ha
-          obtain ⟨s, _, rfl⟩ := ha
-          simp
         rw [hl] at hitems
-        simp only [hk, beq_self_eq_true] at hitems
         have hde := deAttr_ok P f t hl R items (hRf.trans e1) hitems
-        have ih := assemble_ok P ns text fuel fds rest (j + 1) C R (fun g hg => hcore g (List.mem_cons_of_mem _ hg)) hnd' hrest
-          (by
-            intro i hi
-            rw [hC i (by omega)]
-            simp [claimedOf, hk])
-          (by
-            intro g hg hgk
-            rw [hR g (List.mem_cons_of_mem _ hg) hgk]
-            have hne : g.rename ≠ f.rename := by
-              intro e
-              apply hnot
-              unfold attrNamesL
-              simp only [List.mem_map, List.mem_filter]
-              exact ⟨g, ⟨hg, by simp [hgk]⟩, e⟩
-            simp only [attrsOf, hk, beq_self_eq_true, if_true, List.filter_append]
-            have : ((primStrs items).map (fun s => (f.rename, attrNorm s))).filter (fun a => a.1 == g.rename) = [] := by
-              rw [List.filter_eq_nil_iff]
-              intro a ha
-              simp only [List.mem_map] at ha
-              obtain ⟨s, _, rfl⟩ := ha
-              simp only [beq_iff_eq]
-              exact fun e => hne e.symm
-            rw [this, List.nil_append])
         simp only [assemble, hk, hl]
         rw [hde]
         simp only
         rw [wrapItems_ok _ _ hwrap, ih]
+      | struct n =>
+        have hwl : wrapperLeaf P f.leaf = true := by
+          rcases hf.1 with h | h
+          · simp [isPrim, hl] at h
+          · exact h
+        rw [hl] at hwl hitems
+        simp only [wrapperLeaf] at hwl
+        cases hw : P.find n with
+        | none => simp [hw] at hwl
+        | some w =>
+          rw [hw] at hwl
+          simp only at hwl
+          have hfold := wrapperItems_foldr P n w hw hwl fuel items hitems
+          simp only [assemble, hk, hl, hw]
+          rw [hRf.trans e1]
+          simp only [List.map_map]
+          have : ((fun (x : String × String) => x.2) ∘ fun s => (f.rename, attrNorm s)) = attrNorm := by
+            funext s; rfl
+          rw [this, hfold]
+          simp only
+          rw [wrapItems_ok _ _ hwrap, ih]
     | text => simp [fieldCore, hk] at hf
     | flatten => simp [fieldCore, hk] at hf
 
@@ -463,8 +533,54 @@ theorem serItems_prim_texts (P : Prog) (l : Option String × String) (t : PrimTy
     | none => simp [hq] at ih
     | some xs =>
       simp only [hq, Option.map_some, Option.some.injEq] at ih
-      simp [PXs.texts, PX.text, primStrs, ih, txt_nonempty s he]
+      simp [PXs.texts, PX.text, primStrs, itemText, ih, txt_nonempty s he]
   | .cons (.struct _ _) r, h => by simp [okItems, okVal] at h
+
+/-- the texts of the items of an attribute member whose type is a simple-type wrapper -/
+theorem serItems_wrapper_texts (P : Prog) (l : Option String × String) (n : String) (w : StructD) (hw : P.find n = some w)
+    (hwr : isWrapper w = true) (b : Bool) : (items : Vals) →
+    okItems P (.struct n) b items = true → (serItems P l (.struct n) items).map PXs.texts = some (primStrs items)
+  | .nil, _ => by simp [serItems, PXs.texts, primStrs]
+  | .cons (.prim s) r, h => by simp [okItems, okVal] at h
+  | .cons (.struct n' fs) r, h => by
+    simp only [okItems, okVal, Bool.and_eq_true, beq_iff_eq] at h
+    obtain ⟨⟨⟨hn, hokf⟩, _⟩, hr⟩ := h
+    subst hn
+    rw [hw] at hokf
+    simp only at hokf
+    have ih := serItems_wrapper_texts P l n w hw hwr b r hr
+    unfold isWrapper at hwr
+    match hfl : w.fields, hwr with
+    | [f], hwr =>
+      simp only [Bool.and_eq_true, beq_iff_eq] at hwr
+      obtain ⟨⟨hkind, hwrap⟩, hprim⟩ := hwr
+      cases hl : f.leaf with
+      | struct m => simp [isPrim, hl] at hprim
+      | prim t =>
+        rw [hfl] at hokf
+        match fs, hokf with
+        | .cons items .nil, hokf =>
+          simp only [okFields, Bool.and_eq_true, hl, hwrap] at hokf
+          obtain ⟨⟨hit, hwo⟩, _⟩ := hokf
+          match items, hwo with
+          | .cons (.prim s) .nil, _ =>
+            simp only [okItems, okVal, Bool.and_eq_true, Bool.not_eq_true', beq_iff_eq] at hit
+            obtain ⟨⟨⟨hne, hnorm⟩, _⟩, _⟩ := hit
+            have htx := serItems_prim_texts P (none, "") t false (.cons (.prim s) .nil)
+              (by simp [okItems, okVal, hne, hnorm])
+            have hsv : serVal P l (.struct n) (.struct n (.cons (.cons (.prim s) .nil) .nil)) =
+                some (.elem l.1 l.2 w.nss [] (some s) .nil) := by
+              simp only [serVal, beq_self_eq_true, if_true, hw, hfl, serFields, hkind]
+              rw [hl, htx]
+              simp [primStrs, itemText, String.join, Parts.merge, PXs.append, txt_nonempty s hne]
+            simp only [serItems, hsv]
+            cases hq : serItems P l (.struct n) r with
+            | none => simp [hq] at ih
+            | some xs =>
+              simp only [hq, Option.map_some, Option.some.injEq] at ih
+              simp [PXs.texts, PX.text, primStrs, itemText, ih]
+          | .cons (.struct _ _) .nil, _ => simp [okItems, okVal] at hit
+        | .cons _ (.cons _ _), hokf => simp [okFields] at hokf
 
 theorem resolve_elem {env : List (String × String)} {pfx : Option String} {l : String} {decls : List (String × String)}
     {attrs : List (Option String × String × String)} {text : Option String} {kids : PXs} {rx : RX}
@@ -497,7 +613,7 @@ theorem resolve_elem {env : List (String × String)} {pfx : Option String} {l : 
           exact ⟨rks, rfl, by simp [hq, ← h]⟩
       · cases h
 
-theorem complexOf (P : Prog) (hP : core P = true) (sd : StructD) (hsd : sd ∈ P) : structCore sd = true ∧ consistent P = true := by
+theorem complexOf (P : Prog) (hP : core P = true) (sd : StructD) (hsd : sd ∈ P) : structCore P sd = true ∧ consistent P = true := by
   unfold core at hP
   have := Bool.and_eq_true_iff.mp hP
   exact ⟨(List.all_eq_true.mp this.1) sd hsd, this.2⟩
@@ -570,7 +686,7 @@ theorem rt_val (P : Prog) (hP : core P = true) (env : List (String × String)) (
                           (by simp [okItems, okVal, hne, hnorm])
                         simp only [serFields, hkind] at hsf
                         rw [hl, htx] at hsf
-                        simp only [primStrs, Option.map_some, String.join, List.foldl, Option.some.injEq] at hsf
+                        simp only [primStrs, itemText, Option.map_some, String.join, List.foldl, Option.some.injEq] at hsf
                         subst hsf
                         simp only [Parts.merge, PXs.append, resolveList, Option.some.injEq] at hk
                         subst hk
@@ -589,12 +705,7 @@ theorem rt_val (P : Prog) (hP : core P = true) (env : List (String × String)) (
                 obtain ⟨hkids, hattrs, htext⟩ := hF
                 rw [hkids]
                 simp only
-                have hA := assemble_ok P ns parts.text (P.length + sd.fields.length) sd.fields fs 0 (claimedOf 0 sd.fields fs)
-                  (parts.attrs.map (fun a => (a.2.1, attrNorm a.2.2)))
-                  (List.all_eq_true.mp hcore) (by unfold attrNames at hnd; exact hnd) hokf (fun i _ => rfl)
-                  (fun f _ _ => by rw [hattrs])
-                rw [show P.length + sd.fields.length + 2 = P.length + sd.fields.length + 1 + 1 from rfl]
-                have hA' := assemble_ok P ns parts.text (P.length + sd.fields.length + 1) sd.fields fs 0 (claimedOf 0 sd.fields fs)
+                have hA' := assemble_ok P ns parts.text (P.length + sd.fields.length) sd.fields fs 0 (claimedOf 0 sd.fields fs)
                   (parts.attrs.map (fun a => (a.2.1, attrNorm a.2.2)))
                   (List.all_eq_true.mp hcore) (by unfold attrNames at hnd; exact hnd) hokf (fun i _ => rfl)
                   (fun f _ _ => by rw [hattrs])
@@ -643,7 +754,7 @@ theorem rt_items (P : Prog) (hP : core P = true) (env : List (String × String))
               simp [RX.key, hln, hns]
             simp only [deKids, ih, hkey, hown, hf, hleaf, hde, Vals.toList, List.map_cons]
 theorem rt_fields (P : Prog) (hP : core P = true) (env0 : List (String × String)) (sd : StructD) (hsd : sd ∈ P)
-    (hcx : isComplex sd = true) (hcons : consistent P = true)
+    (hcx : isComplex P sd = true) (hcons : consistent P = true)
     (fds : List FieldD) (fs : FVals) (j : Nat) (hdrop : sd.fields.drop j = fds)
     (hok : okFields P fds fs = true) (parts : Parts) (hs : serFields P fds fs = some parts)
     (rks : RXs) (hr : resolveList (sd.nss ++ env0) parts.kids = some rks) :
@@ -708,21 +819,33 @@ theorem rt_fields (P : Prog) (hP : core P = true) (env0 : List (String × String
             · simp [Parts.merge, ih3]
       | attr =>
         rw [hk] at hs
-        simp only [fieldCore, hk, Bool.and_eq_true] at hfc
-        cases hl : f.leaf with
-        | struct m => simp [isPrim, hl] at hfc
-        | prim t =>
-          rw [hl] at hs hitems
-          have htx := serItems_prim_texts P (none, "") t (f.kind == .attr) items hitems
-          rw [htx] at hs
-          simp only [Option.map_some, Option.some.injEq] at hs
-          subst hs
-          simp only [Parts.merge, PXs.append] at hr
-          obtain ⟨ih1, ih2, ih3⟩ := rt_fields P hP env0 sd hsd hcx hcons rest more (j + 1) hdrop' hmore tail hst rks hr
-          refine ⟨?_, ?_, ?_⟩
-          · rw [ih1]; simp [claimedOf, hk]
-          · simp [Parts.merge, attrsOf, hk, ih2, List.map_map, Function.comp_def]
-          · simp [Parts.merge, ih3]
+        simp only [fieldCore, hk, Bool.and_eq_true, Bool.or_eq_true] at hfc
+        have htx : (serItems P (none, "") f.leaf items).map PXs.texts = some (primStrs items) := by
+          cases hl : f.leaf with
+          | prim t =>
+            rw [hl] at hitems
+            exact serItems_prim_texts P (none, "") t (f.kind == .attr) items hitems
+          | struct m =>
+            have hwl : wrapperLeaf P f.leaf = true := by
+              rcases hfc.1 with h | h
+              · simp [isPrim, hl] at h
+              · exact h
+            rw [hl] at hwl hitems
+            simp only [wrapperLeaf] at hwl
+            cases hw : P.find m with
+            | none => simp [hw] at hwl
+            | some w =>
+              rw [hw] at hwl
+              exact serItems_wrapper_texts P (none, "") m w hw hwl (f.kind == .attr) items hitems
+        rw [htx] at hs
+        simp only [Option.map_some, Option.some.injEq] at hs
+        subst hs
+        simp only [Parts.merge, PXs.append] at hr
+        obtain ⟨ih1, ih2, ih3⟩ := rt_fields P hP env0 sd hsd hcx hcons rest more (j + 1) hdrop' hmore tail hst rks hr
+        refine ⟨?_, ?_, ?_⟩
+        · rw [ih1]; simp [claimedOf, hk]
+        · simp [Parts.merge, attrsOf, hk, ih2, List.map_map, Function.comp_def]
+        · simp [Parts.merge, ih3]
       | text => simp [fieldCore, hk] at hfc
       | flatten => simp [fieldCore, hk] at hfc
 end
